@@ -43,6 +43,18 @@ def rand_step(rng):
     return {"opts": opts, "exp": exp, "lazy": lazy}
 
 
+def rand_tree(rng, depth, tags=None):
+    """Steps of a job tree: siblings / cousins set and export options of the same names."""
+    tags = tags if tags is not None else [0]
+    kids = []
+    for _ in range(rng.randint(1, 3) if depth > 0 else 0):
+        opts = {k: rng.randint(2, 6) for k in ("memory", "zone") if rng.random() < 0.4}
+        exp = {k: rng.randint(7, 9) for k in ("memory", "zone", "vcpus") if rng.random() < 0.35}
+        tags[0] += 1
+        kids.append({"opts": opts, "exp": exp, "tag": tags[0], "kids": rand_tree(rng, depth - 1, tags)})
+    return kids
+
+
 def run(ctx: Ctx) -> None:
     ctx.assume("options are observed from inside the job via JobInfo.options")
     stride = ctx.pick(131, 7)
@@ -76,6 +88,13 @@ def run(ctx: Ctx) -> None:
         e = EL.call("olvl", EL.V(n), EL.V(plan))
         obs = EL.run_sim(EL.build(e), ctx.rng)
         rcases.append({"id": i + 1, "e": e, "ctx": EL.to_value({}), "run": EL.to_value({}), "obs": obs})
+    ntree = 0
+    for i in range(ctx.pick(80, 800)):
+        e = EL.call("otree", EL.V(rand_tree(ctx.rng, ctx.rng.randint(2, 3))))
+        obs = EL.run_sim(EL.build(e), ctx.rng)
+        rcases.append({"id": len(rcases) + 1, "e": e, "ctx": EL.to_value({}), "run": EL.to_value({}), "obs": obs})
+        ntree += 1
+    ctx.note("random_trees", ntree)
     bad = copy.deepcopy(rcases[0])
     bad["id"] = len(rcases) + 1
     bad["obs"]["v"][0] = {"t": "dict", "v": [[{"t": "str", "v": "memory"}, {"t": "int", "v": 99}]]}
